@@ -7,6 +7,7 @@ import (
 	"encoding/json"
 	"fmt"
 	"os"
+	"path/filepath"
 	"runtime/debug"
 	"sort"
 	"strings"
@@ -95,11 +96,17 @@ func (e *Env) TempDir() string {
 	if base == "" {
 		base = os.TempDir()
 	}
-	d, err := os.MkdirTemp(base, "run")
-	if err != nil {
+	// fixed-width names: some code under test embeds the path in what it writes (export
+	// names), and a path whose length varies between runs would change logged sizes
+	tmpCounter++
+	d := filepath.Join(base, fmt.Sprintf("r%07d-%07d", os.Getpid()%10000000, tmpCounter))
+	if err := os.Mkdir(d, 0o755); err != nil {
 		panic(err)
 	}
 	e.tmp = append(e.tmp, d)
+	if e.Sched != nil {
+		e.Sched.Scrub(d, fmt.Sprintf("$D%d", len(e.tmp)))
+	}
 	return d
 }
 
@@ -138,6 +145,8 @@ type Prop struct {
 	// NoShrinkStreams lists streams the shrinker must leave alone.
 	NoShrinkStreams []string
 }
+
+var tmpCounter int
 
 var registry = map[string]*Prop{}
 
